@@ -1172,6 +1172,12 @@ func (f *framer) parseResultRows() frame {
 	if result.numRows < 0 {
 		panic(fmt.Errorf("invalid row_count in result frame: %d", result.numRows))
 	}
+	// every cell takes at least the four bytes of its length: a row count
+	// that the rest of the body cannot hold (any positive count for a result
+	// without columns) must not drive the iteration
+	if cells := int64(result.numRows) * int64(result.meta.colCount); result.numRows > 0 && (result.meta.colCount <= 0 || cells > int64(len(f.buf))/4) {
+		panic(fmt.Errorf("invalid row_count in result frame: %d rows of %d columns in %d bytes", result.numRows, result.meta.colCount, len(f.buf)))
+	}
 
 	return result
 }
